@@ -304,3 +304,58 @@ package rules
 //@   safety nonil
 //@   ensures !typeIs(id, string) ==> ret2 != nil
 //@   ensures conf != nil && !typeIs(conf, "map[string]any") ==> ret2 != nil
+
+// ---- C06 / C07: rule set changes are prepared on a private copy of the index and published by one
+// pointer store; a change that cannot be applied leaves index and bookkeeping untouched ----
+// Ghost logs: tclone = Tree.Clone calls; mlock/munlock/mrlock/mrunlock = lock operations (arg0 = mutex).
+
+// only the tree handed in is changed
+//@ func (*repository).addRulesTo
+//@   props C06 C07
+//@   modifies Tree.*, elems(*)
+//@   ensures r.index == old(r.index) && r.knownRules == old(r.knownRules)
+
+//@ func (*repository).removeRulesFrom
+//@   props C06 C07
+//@   modifies Tree.*, elems(*)
+//@   ensures r.index == old(r.index) && r.knownRules == old(r.knownRules)
+
+// AddRuleSet: writers are serialised by knownRulesMutex from before the index is copied until the
+// return; the new rules go into the copy only; on failure nothing is published and the bookkeeping
+// is unchanged; on success the copy becomes the index, under the write lock of rulesTreeMutex.
+//@ func (*repository).AddRuleSet
+//@   props C06 C07
+//@   ensures ret0 != nil ==> r.index == old(r.index) && r.knownRules == old(r.knownRules)
+//@   ensures ret0 == nil ==> tclone.n == old(tclone.n) + 1 && r.index == tclone.ret0[old(tclone.n)]
+//@   ensures mlock.n == munlock.n - old(munlock.n) + old(mlock.n)
+//@   assert at call Clone#1: callarg0 == r.index && mlock.n == old(mlock.n) + 1 && mlock.arg0[old(mlock.n)] == &r.knownRulesMutex && munlock.n == old(munlock.n)
+//@   assert at call addRulesTo#1: callarg1 == tclone.ret0[tclone.n - 1] && callarg1 != r.index
+//@   assert at store index#1: stored == tclone.ret0[tclone.n - 1] && mlock.n == old(mlock.n) + 2 && mlock.arg0[old(mlock.n) + 1] == &r.rulesTreeMutex && munlock.n == old(munlock.n)
+//@   assert at store knownRules#1: mlock.n == old(mlock.n) + 1 && munlock.n == old(munlock.n)
+
+// UpdateRuleSet / DeleteRuleSet: the same discipline as AddRuleSet
+//@ func (*repository).UpdateRuleSet
+//@   props C06 C07
+//@   ensures ret0 != nil ==> r.index == old(r.index) && r.knownRules == old(r.knownRules)
+//@   ensures ret0 == nil ==> tclone.n == old(tclone.n) + 1 && r.index == tclone.ret0[old(tclone.n)]
+//@   assert at call Clone#1: callarg0 == r.index && mlock.n == old(mlock.n) + 1 && mlock.arg0[old(mlock.n)] == &r.knownRulesMutex && munlock.n == old(munlock.n)
+//@   assert at call removeRulesFrom#1: callarg1 == tclone.ret0[tclone.n - 1] && callarg1 != r.index
+//@   assert at call addRulesTo#1: callarg1 == tclone.ret0[tclone.n - 1] && callarg1 != r.index
+//@   assert at store index#1: stored == tclone.ret0[tclone.n - 1] && mlock.n == old(mlock.n) + 2 && mlock.arg0[old(mlock.n) + 1] == &r.rulesTreeMutex && munlock.n == old(munlock.n)
+//@   assert at store knownRules#1: mlock.n == old(mlock.n) + 1 && munlock.n == old(munlock.n)
+//@   assert at store knownRules#2: mlock.n == old(mlock.n) + 1 && munlock.n == old(munlock.n)
+
+//@ func (*repository).DeleteRuleSet
+//@   props C06 C07
+//@   ensures ret0 != nil ==> r.index == old(r.index) && r.knownRules == old(r.knownRules)
+//@   ensures ret0 == nil ==> tclone.n == old(tclone.n) + 1 && r.index == tclone.ret0[old(tclone.n)]
+//@   assert at call Clone#1: callarg0 == r.index && mlock.n == old(mlock.n) + 1 && mlock.arg0[old(mlock.n)] == &r.knownRulesMutex && munlock.n == old(munlock.n)
+//@   assert at call removeRulesFrom#1: callarg1 == tclone.ret0[tclone.n - 1] && callarg1 != r.index
+//@   assert at store index#1: stored == tclone.ret0[tclone.n - 1] && mlock.n == old(mlock.n) + 2 && mlock.arg0[old(mlock.n) + 1] == &r.rulesTreeMutex && munlock.n == old(munlock.n)
+//@   assert at store knownRules#1: mlock.n == old(mlock.n) + 1 && munlock.n == old(munlock.n)
+
+// lookups read the published index under the read lock, which is released on every way out
+//@ func (*repository).FindRule
+//@   props C07
+//@   ensures mrunlock.n == old(mrunlock.n) + 1 && mrlock.n == old(mrlock.n) + 1
+//@   assert at call Find#1: callarg0 == r.index && mrlock.n == old(mrlock.n) + 1 && mrlock.arg0[old(mrlock.n)] == &r.rulesTreeMutex && mrunlock.n == old(mrunlock.n)
